@@ -1,6 +1,8 @@
 import Gv.Oracle.Floats
 import Gv.Gen.NumericModels
+import Gv.Gen.ProteinTables
 import Gv.Model.Pij
+import Gv.Model.ProtModel
 import Gv.Spec.SubstModels
 /-!
 Oracle handler for C18 (substitution models).  Op `c18 <model> <params> <s> <t>`; the
@@ -15,10 +17,11 @@ eigen-system and the regenerated rate matrix is compared with `R·D·L`.  When e
 model result is the implementation's text; otherwise it names the first disagreement.
 
 *Verdict* (the C18 predicate on the implementation's numbers, absolute tolerance 1e-9 on
-probabilities): finite, eigen residuals, entries in [0,1], rows sum to one, P(0)=I, semigroup,
-detailed balance, analytic = eigen-based (JC, K2P), equality with `exp(t·Q)` for the textbook rate
-matrix of `Spec.Subst` (computed here without any eigen-decomposition), spectral bound on the distance
-to the stationary frequencies.
+probabilities): finite, `L·R = I`, entries in [0,1], rows sum to one, P(0)=I, semigroup, detailed
+balance, analytic = eigen-based (JC, K2P), spectrum, `R·D·L` = textbook rate matrix of `Spec.Subst`
+scaled to mean rate one, equality with `exp(t·Q)` of that matrix (computed here without any
+eigen-decomposition), spectral bound on the distance to the stationary frequencies.  All failing
+clauses are listed (`fail:a+b`).
 -/
 namespace Gv.Oracle.Models
 open Gv Gv.Oracle Gv.Oracle.F Gv.Gen.Models Gv.Spec.Subst
@@ -82,6 +85,17 @@ def setup (model : String) (p : Array Float) : Option Setup :=
     some ⟨4, p.extract 6 10, none, none,
       some (GTRModel_InitModel (g 0) (g 1) (g 2) (g 3) (g 4) (g 5) (g 6) (g 7) (g 8) (g 9)).toArray,
       exGTR (g 0) (g 1) (g 2) (g 3) (g 4) (g 5)⟩
+  | "prot", sz =>
+    if sz != 1 && sz != 21 then none else
+    match Gen.Protein.table (g 0).toUInt64.toNat with
+    | none => none
+    | some (mt, pt) =>
+      if (g 0).toUInt64.toNat.toFloat != g 0 then none else
+      let sArr : Array Float := (mt.map Model.ProtModel.ofRat).toArray
+      let pArr : Array Float := (pt.map Model.ProtModel.ofRat).toArray
+      let user : Option (Nat → Float) := if sz == 21 then some (fn1 (p.extract 1 21)) else none
+      let ini := Model.ProtModel.initModel 20 (fn2 20 sArr) (fn1 pArr) user
+      some ⟨20, (Array.range 20).map ini.pi, none, none, some (Mat.ofFn 20 ini.q).a, fn2 20 sArr⟩
   | _, _ => none
 
 /-- `NewPij(model, x)` then `Pij(i,j)` for all `i j`, through the eigen-system path -/
@@ -98,63 +112,68 @@ def rdl (n : Nat) (val l r : Array Float) : Mat :=
       v := v + idx r (i * n + k) * idx val k * idx l (k * n + j)
     return v
 
-/-- the C18 predicate on the implementation's numbers; `none` = holds -/
+/-- The C18 predicate on the implementation's numbers: the list of failing clauses (empty = holds).
+Exact laws come first; the clauses that depend on the *scale* of the textbook rate matrix
+(`rate-matrix-textbook`, `expm-textbook`, `limit-stationary`) last. -/
 def predicate (n : Nat) (pi val l r : Array Float) (s t : Float) (ps pt pst : Array Float)
-    (es : Option (Array Float × Array Float × Array Float)) (res : Array Float) (qspec : Mat) : Option String := Id.run do
+    (es : Option (Array Float × Array Float × Array Float)) (res : Array Float) (qspec : Mat) : List String := Id.run do
   let all := [ps, pt, pst] ++ (match es with | some (a, b, c) => [a, b, c] | none => [])
   let fin (a : Array Float) : Bool := a.all Float.isFinite
-  if !(fin pi && fin val && fin l && fin r && all.all fin && fin res) then return some "nonfinite"
-  -- eigen-system residuals (what the external decomposition is trusted for, measured)
+  if !(fin pi && fin val && fin l && fin r && all.all fin && fin res) then return ["nonfinite"]
+  let mut bad : List String := []
+  let flag (b : List String) (c : String) : List String := if b.contains c then b else b ++ [c]
   let L : Mat := ⟨n, l⟩
   let R : Mat := ⟨n, r⟩
-  let qscale := if qspec.maxAbs > 1 then qspec.maxAbs else 1
-  if !(Mat.maxAbsDiff (Mat.mul L R) (Mat.ident n) ≤ tol) then return some "eigen-LR-identity"
-  if !(Mat.maxAbsDiff (rdl n val l r) qspec ≤ tol * qscale) then return some "eigen-RDL-textbookQ"
-  if !(idx res 0 ≤ tol * qscale && idx res 1 ≤ tol) then return some "eigen-residuals-go-side"
+  -- eigen-system consistency (what the external decomposition is trusted for, measured)
+  if !(Mat.maxAbsDiff (Mat.mul L R) (Mat.ident n) ≤ tol && idx res 1 ≤ tol) then bad := flag bad "eigen-LR-identity"
   -- stochastic
   for p in all do
     for k in [0:n * n] do
-      if !(idx p k ≥ -tol && idx p k ≤ 1 + tol) then return some "entries-unit-interval"
+      if !(idx p k ≥ -tol && idx p k ≤ 1 + tol) then bad := flag bad "entries-unit-interval"
     for i in [0:n] do
       let mut sum : Float := 0
       for j in [0:n] do
         sum := sum + idx p (i * n + j)
-      if !((sum - 1).abs ≤ tol) then return some "rows-sum-one"
-  if !(idx res 2 ≤ tol && idx res 5 ≥ -tol && idx res 6 ≤ 1 + tol) then return some "stochastic-go-side"
+      if !((sum - 1).abs ≤ tol) then bad := flag bad "rows-sum-one"
+  if !(idx res 2 ≤ tol && idx res 5 ≥ -tol && idx res 6 ≤ 1 + tol) then bad := flag bad "stochastic-go-side"
   -- P(0) = I
   let idm := Mat.ident n
   for (x, p) in [(s, ps), (t, pt), (s + t, pst)] do
-    if x == 0 && !(Mat.maxAbsDiff ⟨n, p⟩ idm ≤ tol) then return some "P0-identity"
+    if x == 0 && !(Mat.maxAbsDiff ⟨n, p⟩ idm ≤ tol) then bad := flag bad "P0-identity"
   -- semigroup
-  if !(Mat.maxAbsDiff (Mat.mul ⟨n, ps⟩ ⟨n, pt⟩) ⟨n, pst⟩ ≤ tol) then return some "semigroup"
-  if !(idx res 3 ≤ tol) then return some "semigroup-go-side"
+  if !(Mat.maxAbsDiff (Mat.mul ⟨n, ps⟩ ⟨n, pt⟩) ⟨n, pst⟩ ≤ tol && idx res 3 ≤ tol) then bad := flag bad "semigroup"
   -- detailed balance
   for p in all do
     for i in [0:n] do
       for j in [0:n] do
         if !((idx pi i * idx p (i * n + j) - idx pi j * idx p (j * n + i)).abs ≤ tol) then
-          return some "detailed-balance"
-  if !(idx res 4 ≤ tol) then return some "detailed-balance-go-side"
+          bad := flag bad "detailed-balance"
+  if !(idx res 4 ≤ tol) then bad := flag bad "detailed-balance"
   -- analytical formula = eigen-decomposition based value
   match es with
   | some (a, b, c) =>
     if !(Mat.maxAbsDiff ⟨n, a⟩ ⟨n, ps⟩ ≤ tol && Mat.maxAbsDiff ⟨n, b⟩ ⟨n, pt⟩ ≤ tol &&
-         Mat.maxAbsDiff ⟨n, c⟩ ⟨n, pst⟩ ≤ tol) then return some "analytic-vs-eigen"
+         Mat.maxAbsDiff ⟨n, c⟩ ⟨n, pst⟩ ≤ tol) then bad := flag bad "analytic-vs-eigen"
   | none => pure ()
-  -- equality with the matrix exponential of the textbook rate matrix (mean rate one)
-  for (x, p) in [(s, ps), (t, pt), (s + t, pst)] do
-    if !(Mat.maxAbsDiff (Mat.expm qspec x) ⟨n, p⟩ ≤ tol) then return some "expm-textbook"
-  -- convergence to the stationary frequencies: exactly one eigenvalue 0, the others negative, and the
-  -- reversible-chain bound |P_ij(x) − π_j| ≤ sqrt(π_j/π_i)·exp(−gap·x)
+  -- spectrum: exactly one eigenvalue 0, the others negative
   let zeros := (val.filter fun v => v.abs ≤ tol).size
-  if zeros != 1 || val.any (fun v => v > tol) then return some "spectrum"
+  if zeros != 1 || val.any (fun v => v > tol) then bad := flag bad "spectrum"
+  -- the implementation's rate matrix R·D·L is the textbook one, scaled to mean rate one
+  let qscale := if qspec.maxAbs > 1 then qspec.maxAbs else 1
+  if !(Mat.maxAbsDiff (rdl n val l r) qspec ≤ tol * qscale && idx res 0 ≤ tol * qscale) then
+    bad := flag bad "rate-matrix-textbook"
+  -- equality with the matrix exponential of the textbook rate matrix
+  for (x, p) in [(s, ps), (t, pt), (s + t, pst)] do
+    if !(Mat.maxAbsDiff (Mat.expm qspec x) ⟨n, p⟩ ≤ tol) then bad := flag bad "expm-textbook"
+  -- convergence to the stationary frequencies: the reversible-chain bound
+  -- |P_ij(x) − π_j| ≤ sqrt(π_j/π_i)·exp(−gap·x), gap = smallest non-zero |eigenvalue|
   let gap := val.foldl (fun g v => if v.abs ≤ tol then g else if -v < g then -v else g) pinf
   for (x, p) in [(s, ps), (t, pt), (s + t, pst)] do
     for i in [0:n] do
       for j in [0:n] do
         let bound := Float.sqrt (idx pi j / idx pi i) * Float.exp (-(gap * x)) + tol
-        if !((idx p (i * n + j) - idx pi j).abs ≤ bound) then return some "limit-stationary"
-  return none
+        if !((idx p (i * n + j) - idx pi j).abs ≤ bound) then bad := flag bad "limit-stationary"
+  return bad
 
 def handle : Handler := fun op args impl =>
   match op, args with
@@ -212,20 +231,24 @@ def handle : Handler := fun op args impl =>
     | none, some _ => diff := diff <|> some "unexpected eigen-based sections"
     | none, none => pure ()
     -- regenerated rate matrix against the implementation's eigen-system (Q = R·D·L)
+    -- The rate matrix is an unexported field: it is observable only through a valid eigen-system.  When
+    -- the implementation's `L` is not the inverse of its `R` (a failing verdict clause, never silent)
+    -- `R·D·L` says nothing about the matrix that was built, and this comparison is not possible.
+    let lrOk := Mat.maxAbsDiff (Mat.mul ⟨n, lI⟩ ⟨n, rI⟩) (Mat.ident n) ≤ tol
     match su.qgen with
     | some q =>
       let qm : Mat := ⟨n, q⟩
       let sc := if qm.maxAbs > 1 then qm.maxAbs else 1
       let d := Mat.maxAbsDiff (rdl n valI lI rI) qm
-      if !(d ≤ relTol * sc) && diff.isNone then
+      if lrOk && !(d ≤ relTol * sc) && diff.isNone then
         diff := some s!"Q(regenerated) vs R·D·L(impl): max diff {fmt d}"
     | none => pure ()
     let modelStr := match diff with | none => impl | some d => "MISMATCH " ++ d
     -- ---------------- verdict ----------------
     let qspec := Mat.ofFn n (textbookQ n su.ex (fn1 su.pi))
     let verdict := match predicate n piI valI lI rI s t psI ptI pstI esI resI qspec with
-      | none => "pass"
-      | some c => "fail:" ++ c
+      | [] => "pass"
+      | cs => "fail:" ++ "+".intercalate cs
     return ⟨modelStr, verdict⟩
   | _, _ => none
 
